@@ -396,3 +396,15 @@ pub fn catch<T>(f: impl FnOnce() -> T) -> Result<T, String> {
             .unwrap_or_else(|| "panic".into())),
     }
 }
+
+/// Enumerating checks call this after every batch of cases: once a violation has been
+/// recorded, one more batch is run (to collect other signatures) and then the enumeration
+/// stops — a violating tree must fail fast, the witnesses found are enough.
+pub fn stop_early(o: &mut Outcome) -> bool {
+    if o.violations.is_empty() {
+        return false;
+    }
+    let seen = o.notes.get("batches_after_first_violation").and_then(|v| v.as_u64()).unwrap_or(0);
+    o.notes.insert("batches_after_first_violation".into(), json!(seen + 1));
+    seen >= 1
+}
